@@ -121,6 +121,21 @@ def main():
     t["events"][3]["err"] = ""
     demos.append(("X02 error of local_complementation on a non-graph state not recorded", "Trace_GraphRep", t, {"ErrorOK"}))
 
+    # --- noise map (X06): a refused tuple left in the map (the defect X06-F1 as a corrupted record); a dropped call
+    from drivers import x06
+    calls = x06.with_queries([{"a": "add_tuple", "k": "e", "g": "Hadamard", "ts": [["X", 6, True]]},
+                              {"a": "add_tuple", "k": "e", "g": "Hadamard", "ts": [["Z", 4, True]]},
+                              {"a": "add_gate", "k": "ep", "g": "CNOT", "ts": [["X", 2, True], ["Z", 2, True]]}])
+    base = {"tid": 1, "gates": x06.GATES, "events": x06.replay(calls)}
+    assert verdict("Trace_NoiseMap", base) == []
+    t = copy.deepcopy(base)
+    for e in t["events"][3:]:
+        e["obs"]["e"]["Hadamard"]["l"].append(["Z", 4])
+    demos.append(("X06 refused tuple stays in the map", "Trace_NoiseMap", t, {"SumBoundOK"}))
+    t = copy.deepcopy(base)
+    del t["events"][6]
+    demos.append(("X06 dropped add_gate_noise call", "Trace_NoiseMap", t, {"ReturnOK", "MapOK"}))
+
     # --- update_hof replay (C19): a worse circuit ranked above a better one
     class _Ctx:
         rng = random.Random(5)
